@@ -1,6 +1,7 @@
 package checks
 
 import (
+	"encoding/json"
 	"fmt"
 	"strings"
 
@@ -159,9 +160,24 @@ func init() {
 		Rule: "scope skeletons = the full product of: a global of the same name exists or not x the definer has 0 / 1 / 2 / 3 / 199 other locals before x x x is not defined in the definer / a parameter / a local / a for variable x 11 inner function shapes (plain read, own local, shadowing parameter, shadowing assignment, a second nesting level with and without the documented explicit copy, a body that assigns the caller's names, one that assigns its parameter, reads of other names, reads inside a loop, a for variable of the same name) x the captured variable is left alone / updated / updated after stack growth (by pushes, by frames with locals, by one wide frame) / updated in a loop after the inner function was created x the inner function is called, passed down, passed through another function, returned, returned inside an array, returned inside a nested array x (for escaped functions) stack churn by deep recursion / an allocating loop / further calls of the definer; plus recursive definers at depth 3/50/200. Every write stores a unique tag. " +
 			"Oracle: every value read equals the reference model's by-name resolution (own, else one-level captured, else global); globals, the caller's variables and its argument are rendered before and after every call and must be unchanged; escaped functions must keep reading the tags their captured variables had when the definer returned. distinct = distinct program; non-trivial = programs inside the described domain in which the inner function ran",
 		Assumptions: []string{"reference model refsem (by-name scoping with one retained level)", "programs whose reads resolve differently under the lexical and the dynamic rule (D-use-before-def) are skipped and counted"},
-		Exec:        sessExec(c04Opt),
-		Shrink:      sessShrink(c04Opt),
-		Run:         c04Run,
+		Exec: func(payload string) (string, string) {
+			if strings.HasPrefix(payload, `{"fresh"`) {
+				impl.Init()
+				var it struct{ Fresh c04Fresh }
+				if err := json.Unmarshal([]byte(payload), &it); err != nil {
+					return "harness:bad-payload", err.Error()
+				}
+				return c04FreshJudge(it.Fresh)
+			}
+			return sessExec(c04Opt)(payload)
+		},
+		Shrink: func(payload, sig string) string {
+			if strings.HasPrefix(payload, `{"fresh"`) {
+				return payload
+			}
+			return sessShrink(c04Opt)(payload, sig)
+		},
+		Run: c04Run,
 	})
 }
 
@@ -219,6 +235,27 @@ func c04Run(w *core.W) {
 			}
 		}
 	}
+	// every activation starts with its own, empty variables: what an earlier call (or expression) left at the same
+	// stack depth must not show through a variable this call did not assign. Differential on the real VM: the call
+	// after a polluting statement against the same call in a fresh session; no tag of the polluter may appear.
+	w.Family("fresh-variables-per-activation")
+	for p := 0; p <= 3; p++ {
+		for k := 1; k <= 4; k++ {
+			for pol := range c04Polluters {
+				for _, via := range []string{"direct", "nested", "loop", "generator"} {
+					it := c04Fresh{p, k, pol, via}
+					b, _ := json.Marshal(map[string]c04Fresh{"fresh": it})
+					if !w.Mine(string(b)) {
+						continue
+					}
+					w.NonTrivial()
+					if sig, detail := c04FreshJudge(it); sig != "" {
+						w.Fail(string(b), sig, detail)
+					}
+				}
+			}
+		}
+	}
 	w.Family("recursive-definers")
 	for _, depth := range []int{3, 50, 200} {
 		for _, body := range []string{
@@ -254,3 +291,83 @@ func wideLocals(n int) string {
 	}
 	return b.String()
 }
+
+// c04Fresh: a function with P parameters and K variables it assigns only when its last argument is true, called with
+// false after polluter Pol, directly or from a nested call / loop body / generator.
+type c04Fresh struct {
+	P   int    `json:"p"`
+	K   int    `json:"k"`
+	Pol int    `json:"pol"`
+	Via string `json:"via"`
+}
+
+var c04Polluters = []string{
+	"SAME-TRUE", // the same function, assigning all its variables
+	"OTHER",     // another function of the same arity with as many variables
+	"[\"T1\", \"T2\", \"T3\", \"T4\", \"T5\", \"T6\", \"T7\", \"T8\", \"T9\"][0]",
+	"wide(\"T1\")", // a function with 12 variables
+	"1 / 0",        // a failing statement after pushing operands
+	"[\"T1\", \"T2\", \"T3\", [\"T4\"][5]]",
+}
+
+func c04FreshJudge(it c04Fresh) (sig, detail string) {
+	params, args, argsTrue := []string{}, []string{}, []string{}
+	for i := 0; i < it.P; i++ {
+		params = append(params, "p" + string(rune('a'+i)))
+		args = append(args, fmt.Sprintf("\"A%d\"", i))
+		argsTrue = append(argsTrue, fmt.Sprintf("\"T-arg%d\"", i))
+	}
+	params = append(params, "on")
+	var f, o strings.Builder
+	fmt.Fprintf(&f, "f = (%s) -> {\n  if on {\n", strings.Join(params, ", "))
+	fmt.Fprintf(&o, "other = (%s) -> {\n", strings.Join(params, ", "))
+	reads := []string{}
+	for i := 0; i < it.K; i++ {
+		fmt.Fprintf(&f, "    v%c = \"T-f%d\"\n", 'a'+i, i)
+		fmt.Fprintf(&o, "  w%c = \"T-o%d\"\n", 'a'+i, i)
+		reads = append(reads, "v"+string(rune('a'+i)))
+	}
+	fmt.Fprintf(&f, "  }\n  last = \"mine\"\n  [%s, last%s]\n}", strings.Join(reads, ", "), map[bool]string{true: ", " + strings.Join(params[:it.P], ", "), false: ""}[it.P > 0])
+	fmt.Fprintf(&o, "  wa\n}")
+	var wide strings.Builder
+	wide.WriteString("wide = (t) -> {\n")
+	for i := 0; i < 12; i++ {
+		fmt.Fprintf(&wide, "  x%c = t\n", 'a'+i)
+	}
+	wide.WriteString("  xa\n}")
+	callFalse := "f(" + strings.Join(append(append([]string{}, args...), "false"), ", ") + ")"
+	callTrue := "f(" + strings.Join(append(append([]string{}, argsTrue...), "true"), ", ") + ")"
+	pol := c04Polluters[it.Pol]
+	switch pol {
+	case "SAME-TRUE":
+		pol = callTrue
+	case "OTHER":
+		pol = "other(" + strings.Join(append(append([]string{}, argsTrue...), "true"), ", ") + ")"
+	}
+	defs := []string{f.String(), o.String(), wide.String(), "nest = (d) -> if d <= 0 " + callFalse + " else nest(d - 1)", "gen = () -> {\n  yield " + callFalse + "\n  yield " + callFalse + "\n}"}
+	var obs string
+	switch it.Via {
+	case "direct":
+		obs = callFalse
+	case "nested":
+		obs = "nest(3)"
+	case "loop":
+		obs = "{\n  r = []\n  for q <- fromto(0, 2) r = r + [" + callFalse + "]\n  r\n}"
+	default:
+		obs = "{\n  r = []\n  for v <- gen() r = r + [v]\n  r\n}"
+	}
+	fresh := runImplStmts(append(append([]string{}, defs...), obs), 200000)
+	after := runImplStmts(append(append(append([]string{}, defs...), pol), obs), 200000)
+	if strings.HasPrefix(fresh, "HARNESS") || strings.HasPrefix(after, "HARNESS") {
+		return "harness:generated-program-does-not-parse", fresh + " / " + after
+	}
+	if !strings.HasPrefix(fresh, "a:[") {
+		return "harness:fresh-variable-program-does-not-run", fmt.Sprintf("%v: %s", defs, fresh)
+	}
+	if fresh != after || strings.Contains(after, "T-") || strings.Contains(after, "\"T") {
+		return "stale-variable", fmt.Sprintf("function with %d parameters and %d variables it does not assign in this call, called (%s) as `%s`: in a fresh session the result is %s, after the statement `%s` it is %s", it.P, it.K, it.Via, callFalse, fresh, oneLineC04(pol), after)
+	}
+	return "", ""
+}
+
+func oneLineC04(s string) string { return strings.ReplaceAll(s, "\n", " ") }
